@@ -95,6 +95,10 @@ def _map_sources(v):
     """Names a value is an order/length-preserving image of; None if not a MAP."""
     if isinstance(v, ast.Name):
         return [v.id]
+    if isinstance(v, ast.Call) and isinstance(v.func, ast.Attribute) and \
+            v.func.attr in ('copy', 'astype', 'tolist') and \
+            isinstance(v.func.value, ast.Name) and v.func.value.id not in ('np', 'numpy'):
+        return [v.func.value.id]
     if isinstance(v, ast.Call):
         d = dotted(v.func) or ''
         if d in ('np.array', 'np.asarray', 'list', 'tuple', 'np.copy', 'transform') and v.args:
